@@ -177,6 +177,16 @@ def replay_doc(ctx, doc, n, variant=None):
                 wantc = [res[i][j] for i in range(G) for j in range(i + 1, G)]
                 if not grid_ok(np.asarray(got.values, dtype=float).reshape(len(wantc), -1), wantc):
                     viol("condensed/wrong_value", f"= {got.values.tolist()} want {wantc}")
+                # "... for each pair of groups THEIR two-collection pcDelta" with a metric that is not symmetric (insertions dearer than
+                # deletions): the entry of (g, h) is pcDelta(group g, group h, ...), itself bound to the specification by C05
+                from pyrepseq.metric import WeightedLevenshtein
+                wl = WeightedLevenshtein(3, 1, 2)
+                kw = dict(bins=list(opt["edges"]) + [9], normalize=opt["norm"], metric=wl)
+                gotw = np.asarray(prs.pcDelta_grouped_cross(df, by, "CDR3B", condensed=True, **kw).values, dtype=float)
+                parts = [list(g_["CDR3B"]) for _, g_ in df.groupby(by, sort=True)]
+                wantw = [np.asarray(prs.pcDelta(parts[i], parts[j], **kw), dtype=float) for i in range(len(parts)) for j in range(i + 1, len(parts))]
+                if gotw.reshape(len(wantw), -1).shape != np.asarray(wantw).shape or not np.allclose(gotw.reshape(len(wantw), -1), np.asarray(wantw), equal_nan=True):
+                    viol("condensed/asymmetric_metric/not_the_pairwise_pcDelta", f"with WeightedLevenshtein(3,1,2): {gotw.tolist()} want {[w.tolist() for w in wantw]}")
         elif fn == "renyi2":
             base = (2.0, math.e, 10.0, 0.5, 0.1)[(n // 7) % 5]
             by_arg = by if opt["by"] else None
